@@ -46,6 +46,9 @@ func main() {
 		runC01x(r, a)
 	case "c04":
 		runC04(r, a, out)
+	case "c04x": // exploration stream (nested / struct-valued disjuncts, impl vs impl), see disjx.go
+		runC04x(r, a)
+		return
 	case "c05":
 		runC05(r, a, out)
 	case "", "eval":
